@@ -13,6 +13,12 @@ Rules (float and double instantiations)
   L6  effects: the unweighted entries (estimateUsingSVD / estimateUsingCholeskyDecomposition and the helpers they reach) never let the weight
       buffer W_ flow into a member or the result - W_ keeps the weights of an earlier weighted problem (it is reset only when the buffers grow),
       and the unweighted answer is the minimiser of |Jx - Y|, a function of J and Y alone
+  L7  semantic instance (E-ALG on a representative instance, analysis/lsmodel.py): the solver is read symbolically on an instance with 5
+      allocated rows of which the current problem uses 3 (and a square 2x2 one), 2 parameters, symbolic entries, and JtJ_/JtY_/inverseJtJ_
+      holding what an earlier solve left; every path of computeJTJ_/computeJTY_/estimateUsingCholeskyDecomposition/weightedEstimate must give
+      J3^T J3, J3^T Y3, A (J3^T J3)^-1 J3^T Y3 + b and A (J3^T W3^2 J3)^-1 J3^T W3^2 Y3 + b exactly (rational-function identity); a result that
+      contains a symbol of a stale row, of an earlier solve's matrices or (unweighted entries) of the weights is reported with that symbol.
+      When L7 decides a function, an unrecognised *form* of it is no longer reported by L2/L4.
 Verdict discipline: a form that is not one of the enumerated idioms is UNDECIDED; VIOLATED needs a fact that holds whatever the form
 (a member that no path writes, a buffer that no path reads, a tainted store).
 Not decided: residual 'to rounding', agreement of the two paths numerically for given condition numbers."""
@@ -32,6 +38,7 @@ LEVEL_TEXT = ('For every history of problem sizes: no solver path can read a row
               'are applied as stated. Numerical accuracy for given condition numbers is not decided.')
 LEVEL_NOTE = 'Not decided: residual to rounding, numerical agreement Cholesky/SVD. Trusted: clang front end, extractor, Eigen view semantics.'
 
+DECIDED = set()      # functions of the current class whose semantics L7 has decided
 BUFFERS = ('J_', 'Y_', 'W_')
 SOLVER = ('estimateUsingCholeskyDecomposition', 'estimateUsingSVD', 'weightedEstimate', 'computeEstimateCovariance', 'weightJAndY_', 'computeJTJ_', 'computeJTY_')
 ACCESSORS = ('getJ', 'getY', 'getW')
@@ -195,6 +202,8 @@ def run(fx, R, tier, sv_ratio=1e-12, sv_why='with cond(J) < 1e6 (quantifier) the
                         top = next((a for a in chain if a.get('k') in ('Expr', 'Return', 'Decl')), None)
                         R.violated('L1', inst + ':unsliced', '%s is used without restriction to the first dataSize_ rows in %s(): `%s` - the buffers never shrink, so after a larger problem '
                                    'this reads rows of the earlier one' % (mem['name'], f['name'], pp(chain[-1]) if chain else mem['name']), fx.rel(mem['loc']), 'E-STATE')
+        DECIDED.clear()
+        check_instance(fx, R, cq, cname)
         check_set_data_size(fx, R, cq, cname)
         check_normal(fx, R, cq, cname)
         check_paths(fx, R, cq, cname)
@@ -260,6 +269,8 @@ def check_normal(fx, R, cq, cname):
         ok = full_i and tri_j and body_ok
     if ok:
         R.holds('L2', cname + '::computeJTJ_', 'JtJ(i,j)=JtJ(j,i)=col_i.col_j over the upper triangle, mirrored', fx.rel(fj['loc']), 'E-ALG')
+    elif 'computeJTJ_' in DECIDED:
+        R.holds('L2', cname + '::computeJTJ_', 'form not enumerated; semantics decided by L7 on the representative instance', fx.rel(fj['loc']), 'E-ALG')
     else:
         R.undecided('L2', cname + '::computeJTJ_', 'normal-matrix loop idiom not recognised: %s %s' % (hs, ex))
     loops = [x for x in walk(fy['body']) if x.get('k') == 'For']
@@ -271,6 +282,8 @@ def check_normal(fx, R, cq, cname):
         ok = i0 == 0 and ic == ('<', i, 'this.estimateSize_') and ii == ('u++', i) and ex == [('=', ('()', 'this.JtY_', i), ('.dot', ('.head', ('.col', 'this.J_', i), 'this.dataSize_'), ('.head', 'this.Y_', 'this.dataSize_')))]
     if ok:
         R.holds('L2', cname + '::computeJTY_', 'JtY(i) = col_i . Y over all i', fx.rel(fy['loc']), 'E-ALG')
+    elif 'computeJTY_' in DECIDED:
+        R.holds('L2', cname + '::computeJTY_', 'form not enumerated; semantics decided by L7 on the representative instance', fx.rel(fy['loc']), 'E-ALG')
     else:
         R.undecided('L2', cname + '::computeJTY_', 'idiom not recognised: %s %s' % (hs, ex))
 
@@ -457,6 +470,8 @@ def check_weight_precond(fx, R, cq, cname):
         elif 'this.W_' not in rd:
             R.violated('L4', cname + '::weightedEstimate', 'no function reached from weightedEstimate() reads the weight buffer W_: the weighted variant returns the unweighted minimiser',
                        fx.rel(fwe['loc']), 'E-STATE')
+        elif 'weightedEstimate' in DECIDED:
+            R.holds('L4', cname + '::weightedEstimate', 'form not enumerated; semantics decided by L7 on the representative instance', fx.rel(fwe['loc']), 'E-ALG')
         else:
             R.undecided('L4', cname + '::weightedEstimate', 'weightedEstimate is %s, not the enumerated form weightJAndY_() then an estimate' % (st,))
         sw = stmts_sx(fw)
@@ -551,3 +566,85 @@ def check_weight_precond(fx, R, cq, cname):
             R.undecided('L6', '%s::%s:reads-weights' % (cname, en), 'W_ is read on the unweighted path but no store or return uses it directly')
         else:
             R.holds('L6', '%s::%s:reads-weights' % (cname, en), 'no function reached reads W_ (reads: %s)' % sorted(rd), fx.rel(f['loc']), 'E-STATE')
+
+
+def check_instance(fx, R, cq, cname):
+    import sympy as sp
+    from .. import lsmodel, sym, alg
+    getj = [g for g in fx.fn(cq + '::getJ') if not g.get('const')]
+    escapes = any('&' in (g.get('sig') or '').split('(')[0] for g in getj)
+    for (data, est, tag) in ((3, 2, '3 rows of 5'), (2, 2, 'square: 2 rows of 5')):
+        inst = lsmodel.Instance(data=data, est=est)
+        J3, Y3, W3 = inst.cur()
+        stale_rows, old_state = inst.stale()
+        wsyms = set(inst.W)
+        Wd = sp.diag(*list(W3))
+        try:
+            exp_chol = inst.A * (J3.T * J3).inv() * J3.T * Y3 + inst.B
+            exp_w = inst.A * (J3.T * Wd * Wd * J3).inv() * J3.T * Wd * Wd * Y3 + inst.B
+        except Exception:
+            continue
+        jobs = (('computeJTJ_', lambda st: st.fields.get(('this', 'JtJ_')), J3.T * J3, 'J^T J of the current rows', False),
+                ('computeJTY_', lambda st: st.fields.get(('this', 'JtY_')), J3.T * Y3, 'J^T Y of the current rows', False),
+                ('estimateUsingCholeskyDecomposition', lambda st: st.ret, exp_chol, 'A (J^T J)^-1 J^T Y + b', False),
+                ('weightedEstimate', lambda st: st.ret, exp_w, 'A (J^T W^2 J)^-1 J^T W^2 Y + b (the minimiser of sum (w_i r_i)^2)', True),
+                ('estimateUsingCholeskyDecomposition', lambda st: st.fields.get(('this', 'inverseJtJ_')), (J3.T * J3).inv(), 'inverseJtJ_ = (J^T J)^-1 (what computeEstimateCovariance scales)', False))
+        for (name, getter, expected, what, weighted) in jobs:
+            f = fx.one(cq + '::' + name)
+            inst_name = '%s::%s:instance(%s)%s' % (cname, name, tag, ':stored-inverse' if what.startswith('inverseJtJ_') else '')
+            if f is None:
+                continue
+            try:
+                sts = lsmodel.run(fx, f, inst)
+            except sym.Unsupported as u:
+                R.undecided('L7', inst_name, 'not interpretable on the instance: %s' % u)
+                continue
+            except Exception as ex:      # singular symbolic inverse etc.
+                R.undecided('L7', inst_name, 'instance evaluation failed: %s: %s' % (type(ex).__name__, str(ex)[:120]))
+                continue
+            all_ok = True
+            for st in sts:
+                desc = ' && '.join(('' if c[2] else '!') + '(' + c[0] + ')' for c in st.cond)
+                got = getter(st)
+                pinst = inst_name + ('[%s]' % desc if desc else '')
+                if not isinstance(got, sp.MatrixBase):
+                    R.undecided('L7', pinst, 'result not readable as a matrix')
+                    all_ok = False
+                    continue
+                if lsmodel.same_matrix(got, expected):
+                    R.holds('L7', pinst, 'exactly %s' % what, fx.rel(f['loc']), 'E-ALG')
+                    continue
+                all_ok = False
+                fs = set().union(*[x.free_symbols for x in got])
+                if fs & stale_rows:
+                    sy = sorted(map(str, fs & stale_rows))[0]
+                    R.violated('L7', '%s::%s:stale-rows' % (cname, name), 'on the instance with %d current rows in a buffer of %d, the result of %s()%s contains %s, an entry of a row beyond the current problem '
+                               '(left there by an earlier, larger problem): the answer is not that of a fresh solver' % (data, inst.rows, name, ' on the path [%s]' % desc if desc else '', sy), fx.rel(f['loc']), 'E-ALG')
+                elif fs & old_state:
+                    sy = sorted(map(str, fs & old_state))[0]
+                    if escapes or not desc:
+                        R.violated('L7', '%s::%s:stale-normal-matrix' % (cname, name), 'the result of %s()%s contains %s, an entry of the matrices an EARLIER solve left in the object: it is re-used instead of being '
+                                   'rebuilt from the current J/Y%s' % (name, ' on the path [%s]' % desc if desc else '', sy,
+                                                                       '; J_ is handed out by mutable reference (getJ()), so no flag can know that the caller has not rewritten it' if desc else ''), fx.rel(f['loc']), 'E-ALG')
+                    else:
+                        R.undecided('L7', pinst, 'the path re-uses matrices of an earlier solve (%s); whether its condition guarantees they are current is not decided' % sy)
+                elif not weighted and fs & wsyms:
+                    sy = sorted(map(str, fs & wsyms))[0]
+                    R.violated('L7', '%s::%s:weights' % (cname, name), 'the result of the unweighted %s() contains the weight %s: it is not the minimiser of |Jx - Y|' % (name, sy), fx.rel(f['loc']), 'E-ALG')
+                else:
+                    # a different function of the current rows: confirm on a witness point before calling it a violation
+                    diff = sp.Matrix(got) - sp.Matrix(expected)
+                    v = alg.decide_zero(diff[0, 0] if diff.shape[0] else sp.Integer(0))
+                    bad = None
+                    for d_ in diff:
+                        v = alg.decide_zero(sp.together(d_))
+                        if v[0] == 'nonzero':
+                            bad = v
+                            break
+                    if bad:
+                        R.violated('L7', '%s::%s:%s' % (cname, name, 'stored-inverse' if what.startswith('inverseJtJ_') else 'closed-form'), 'on the instance (%s) %s()%s does not return %s: an entry differs by %s at %s' % (
+                            tag, name, ' on the path [%s]' % desc if desc else '', what, bad[2], alg.witness_text(bad[1])[:200]), fx.rel(f['loc']), 'E-ALG')
+                    else:
+                        R.undecided('L7', pinst, 'result differs in form from %s and the difference is not decided' % what)
+            if all_ok and sts and tag.startswith('3 rows'):
+                DECIDED.add(name)
